@@ -102,7 +102,7 @@ def main(argv):
     rep.assumptions = ['states are well formed (registers hold values of their width, SCC is 0/1); operand kinds as listed by adm32/adm64/admd32/admd64',
                        'PC handed to the ALU is the address of the next instruction (emu/computeunit.go advances it before Run)']
     thorough = vlib.tier() == 'thorough'
-    per = 150 if thorough else 15
+    per = 150 if thorough else 10
     perv = 12 if thorough else 1
     replay_file = argv[argv.index('--replay') + 1] if '--replay' in argv else None
 
